@@ -382,14 +382,20 @@ def seq_tag_history(rep, rng, lines=None, expect=None):
     ch.set_state(3)
     conn._channels[1] = ch
 
+    def text(t):            # the wire carries short strings; the client decodes them to text
+        return t.decode('utf-8') if isinstance(t, bytes) else t
+
     def write_frame(cid, fr):
         if fr.name == 'Basic.Consume':
-            ch.on_frame(spec.Basic.ConsumeOk(consumer_tag=fr.consumer_tag))
+            ch.on_frame(spec.Basic.ConsumeOk(consumer_tag=text(fr.consumer_tag)))
         elif fr.name == 'Basic.Cancel':
-            ch.on_frame(spec.Basic.CancelOk(consumer_tag=fr.consumer_tag))
+            ch.on_frame(spec.Basic.CancelOk(consumer_tag=text(fr.consumer_tag)))
         elif fr.name == 'Basic.CancelOk':
             pass
     conn.write_frame = write_frame
+
+    def given(t):           # the application hands the tag over as text or already encoded
+        return t.encode('utf-8') if rng.random() < 0.3 else t
     names = ['a', 'b']
     current = {}           # tag -> generation of the live consumer
     gen = [0]
@@ -406,11 +412,14 @@ def seq_tag_history(rep, rng, lines=None, expect=None):
         op = rng.choice(['consume', 'cancel', 'broker-cancel', 'deliver', 'deliver'])
         if op == 'consume' and tag not in current:
             gen[0] += 1
-            ch.basic.consume(make_cb(tag, gen[0]), 'q', consumer_tag=tag)
+            returned = ch.basic.consume(make_cb(tag, gen[0]), 'q', consumer_tag=given(tag))
+            if returned != tag:
+                rep.violation('C14/consume-returns-other-than-confirmed-tag', 'the broker confirmed %r, consume() returned %r' % (tag, returned), replay)
+                break
             current[tag] = gen[0]
             ops.append('c:%s:%d' % (tag, gen[0]))
         elif op == 'cancel' and tag in current:
-            ch.basic.cancel(tag)
+            ch.basic.cancel(given(tag))
             del current[tag]
             ops.append('x:%s' % tag)
         elif op == 'broker-cancel' and tag in current:
